@@ -595,11 +595,31 @@ def probe_all_isolated():
     return [(op, kind, cat, row) for op, kind, cat, row in json.loads(data)]
 
 
+def render_api(namespace="Typedpy.Generated"):
+    """the public callables of the imported typedpy package (introspection) and the names the alias suite has an
+    executable probe for -> Generated/AliasApi.lean (obligations `api_covered`, `api_rows_probed`)"""
+    from harness.suites import alias_api as A
+    api = A.public_api()
+    probed = A.probed_names()
+    lines = ["/- GENERATED by extract/aliasing.py from the typedpy working tree — do not edit. -/",
+             f"namespace {namespace}", "",
+             "/-- (name, kind) of every public, non-module attribute of the `typedpy` package and every public method of",
+             "    its entry-point classes; kind = function | method | class | structure | field | exception | value -/",
+             "def publicApi : List (String × String) := ["]
+    lines.append(",\n".join(f"  ({lean_str(n)}, {lean_str(k)})" for n, k in api))
+    lines += ["]", "", "/-- names for which harness/suites/alias_api.py has an executable probe or an operation stream -/",
+              "def apiProbed : List String := ["]
+    lines.append(",\n".join(f"  {lean_str(n)}" for n in probed))
+    lines += ["]", "", f"end {namespace}", ""]
+    return "\n".join(lines)
+
+
 def generate():
     rows = probe_all_isolated()
     readings = ast_readings()
     text = render(rows, readings)
     changed = write_if_changed("Aliasing.lean", text)
+    changed = write_if_changed("AliasApi.lean", render_api()) or changed
     return rows, readings, changed
 
 
